@@ -71,12 +71,12 @@ CHECKS["C03"] = (
 CHECKS["C04"] = (
  "reference-model monitor: the generator's own ECMAScript scope resolver labels every identifier; the library tree is renamed, printed and lexed, and the identifier tokens are aligned with the generator's (runtime monitoring)",
  "{Q} (quick) / {T} (thorough) generated programs with names drawn from a pool of five plus six contextual keywords (shadowing at every level, hoisting of var and block-level function declarations, closures, catch clauses incl. var redeclaring the parameter, loop heads, parameter defaults that mention outer names, classes, parenthesised lists that are or are not arrow heads): same binding <=> same fresh name, unbound names unchanged and listed in the outermost Undeclared, Var.Uses == printed occurrences, renamed program accepted. Six recorded known findings are probed individually. Held on what was observed.",
- "Domain restrictions (no forward references between parameters, literal-only pattern defaults, declarations one block below a for body, no class-expression self reference) are listed in the evidence assumptions and DESIGN.md.",
+ "Domain restrictions (no forward references between parameters, literal-only destructuring defaults, lexical declarations of a for body first, a default-mentioned name declared at the start of the body or not at function level, no class-expression self reference, no module items) are listed in the evidence assumptions and DESIGN.md; each exists because of a recorded known finding or to keep the token alignment exact.",
  "DESIGN.md §4 C04")
 CHECKS["C05"] = (
  "round-trip monitor (parse, print, re-parse, re-print) over generated programs, literal-stress snippets and mutated corpus entries, through JSString and JS(Indenter) (runtime monitoring)",
  "{Q} (quick) / {T} (thorough) inputs: for every accepted valid-UTF-8 input under a random Options value the printed text must be accepted, its tree must equal the original (String() after removing GroupExpr, and field by field through reflection) and re-printing must reproduce the text byte for byte, also when printed through an outer parse.Indenter of width 0-8 and for literals with line breaks nested in 0-6 blocks. Held on what was observed.",
- "Tree identity is observed through String() after a reflection-based removal of GroupExpr nodes.",
+ "Tree identity is observed through String() and a field-by-field reflection comparison (Scope tables and the Prec annotation excluded, Var by name) after a reflection-based removal of GroupExpr nodes.",
  "DESIGN.md §4 C05")
 CHECKS["C06"] = (
  "construction-time ground truth from a token-sequence generator with a conservative would-merge predicate, lexer state hook H4, canonical-spelling monitor on hostile bytes (runtime monitoring)",
